@@ -27,6 +27,8 @@ public:
     virtual void flush() CPPUTEST_OVERRIDE {}
     virtual void printFailure(const TestFailure&) CPPUTEST_OVERRIDE {}
 };
+#undef new
+#undef delete
 static MemoryLeakDetector* det_;
 static MemoryLeakWarningPlugin* plugin_;
 static TestResult* result_;
